@@ -52,7 +52,7 @@ type pOp struct {
 	Map  map[int]int     `json:"map,omitempty"`
 }
 
-var c14IDs = []string{"cpu", "gpu fan/1", "f"}
+var c14IDs = []string{"cpu", "cpu2", "CPU", "gpu fan/1", "f"} // one id a prefix of another, two differing in case only
 
 func genData(r *kernel.Rand) map[int]float64 {
 	m := map[int]float64{}
